@@ -17,7 +17,11 @@ def alphabet(acceptor, max_len=16384):
         ('rq', ('seg', pd.mk_rq(max_len).encode())), ('ac', ('seg', pd.mk_ac(max_len).encode())),
         ('rj', ('seg', pd.mk_rj().encode())),
         ('data', ('seg', b''.join(p.encode() for p in pd.fragments(pd.mk_message('echo_rq', 1), 1, max_len)))),
-        ('data_part', ('seg', pd.fragments(pd.mk_message('store_rq', 1, 300), 3, 120)[0].encode())),
+        # a partial P-DATA: the first command fragment of a C-ECHO-RQ, cut at an element boundary (group length +
+        # affected SOP class = 38 bytes) so that what follows is decided by the modelled strict reader, not by
+        # pydicom's lenient one
+        ('data_part', ('seg', pd.fragments(pd.mk_message('echo_rq', 2), 1, 44)[0].encode())),
+        ('frame_part', ('seg', pd.mk_rel_rq().encode()[:7])),      # an incomplete PDU (part of a frame)
         ('relrq', ('seg', pd.mk_rel_rq().encode())), ('relrp', ('seg', pd.mk_rel_rp().encode())),
         ('abort', ('seg', pd.mk_abort(2, 0).encode())), ('unknown', ('seg', b'\x09\x00\x00\x00\x00\x01z')),
         ('close', ('close',)), ('expire', ('tick', 11)), ('tick', ('tick', 3)), ('idle', ('idle',)),
@@ -37,38 +41,70 @@ LEGAL_USER = {1: ['u_rq'], 3: ['u_ac', 'u_rj', 'u_abort'], 4: ['u_abort'], 5: ['
               9: ['u_relrp', 'u_abort'], 10: ['u_abort'], 11: ['u_abort'], 12: ['u_relrp', 'u_abort'], 2: [], 13: []}
 
 
-def histories(acceptor, depth, rng, n_random, walk_len):
-    """Exhaustive histories to `depth` (user primitives only where legal, decided by running the
-    implementation on the prefix), then seeded random walks."""
+def bases():
+    """(label, acceptor, ops) reaching each protocol state from which histories are explored."""
+    idle = [('idle',)] * 2
+    rq = [('seg', pd.mk_rq().encode())] + idle
+    est_a = rq + [('user', pd.mk_ac())] + idle
+    est_r = [('user', pd.mk_rq())] + idle + [('seg', pd.mk_ac().encode())] + idle
+    return [
+        ('start', True, []), ('start', False, []),
+        ('sta2', True, [('idle',)]), ('sta3', True, rq), ('sta5', False, [('user', pd.mk_rq())] + idle),
+        ('sta6', True, est_a), ('sta6', False, est_r),
+        ('sta7', True, est_a + [('user', pd.mk_rel_rq())] + idle), ('sta7', False, est_r + [('user', pd.mk_rel_rq())] + idle),
+        ('sta8', True, est_a + [('seg', pd.mk_rel_rq().encode())] + idle),
+        ('sta9', False, est_r + [('user', pd.mk_rel_rq())] + idle + [('seg', pd.mk_rel_rq().encode())] + idle),
+        ('sta10', True, est_a + [('user', pd.mk_rel_rq())] + idle + [('seg', pd.mk_rel_rq().encode())] + idle),
+        ('sta13', True, rq + [('user', pd.mk_rj())] + idle), ('sta13', False, est_r + [('user', pd.mk_abort(0, 0))] + idle),
+    ]
+
+
+def histories(acceptor, base_ops, depth, rng, n_random, walk_len):
+    """Exhaustive histories to `depth` from a base state (user primitives only where legal, decided by
+    running the implementation on the prefix), then seeded random walks."""
     peer, user = alphabet(acceptor)
     udict = dict(user)
     out = []
 
     def state_after(ops):
-        r = pd.run(ops, acceptor)
+        r = pd.run(list(base_ops) + ops + [('idle',)] * 2, acceptor)
         return r['final']['st'], r
 
     def extend(prefix_names, prefix_ops, d):
-        st, _r = state_after(prefix_ops + [('idle',)] * 2) if prefix_ops else (1, None)
+        st, _r = state_after(prefix_ops)
         choices = list(peer) + [(n, udict[n]) for n in LEGAL_USER.get(st, [])]
         for name, op in choices:
             names = prefix_names + [name]
             ops = prefix_ops + [op, ('idle',), ('idle',)]
             if d + 1 >= depth:
-                out.append((names, ops))
+                out.append((names, list(base_ops) + ops))
             else:
                 extend(names, ops, d + 1)
 
-    extend([], [], 0)
+    if depth > 0:
+        extend([], [], 0)
     for _ in range(n_random):
         names, ops = [], []
         for _k in range(walk_len):
-            st, _r = state_after(ops + [('idle',)] * 2) if ops else (1, None)
+            st, _r = state_after(ops)
             choices = list(peer) + [(n, udict[n]) for n in LEGAL_USER.get(st, [])] * 3
             name, op = rng.choice(choices)
             names.append(name)
             ops += [op] + [('idle',)] * rng.choice([0, 1, 2])
-        out.append((names, ops + [('idle',)] * 3))
+        out.append((names, list(base_ops) + ops + [('idle',)] * 3))
+    return out
+
+
+def timed_histories(acceptor, base_ops):
+    """ARTIM is running: a non-expiring time advance, then traffic, then further advances that pass the
+    original deadline (the timer must not have been re-armed by the traffic)."""
+    peer, _user = alphabet(acceptor)
+    out = []
+    for name, op in peer:
+        if name in ('expire', 'tick', 'idle'):
+            continue
+        out.append((['tick6', name, 'tick6'], list(base_ops) + [('tick', 6), ('idle',), op, ('idle',), ('idle',), ('tick', 6)] + [('idle',)] * 3))
+        out.append((['tick6', name, 'tick3', 'tick3'], list(base_ops) + [('tick', 6), ('idle',), op, ('idle',), ('tick', 3), ('idle',), ('tick', 3)] + [('idle',)] * 3))
     return out
 
 
@@ -85,9 +121,15 @@ def main(tier, seed, prop='C05'):
             for lead in (False, True):
                 cases.append((['corpus', name, 'lead_idle' if lead else 'first_waiting'], acceptor,
                               pd.to_script(build(), None, lead)))
-        depth = 2 if tier == 'quick' else 3
-        for names, ops in histories(acceptor, depth, rng, 25 if tier == 'quick' else 300, 12 if tier == 'quick' else 40):
-            cases.append((names, acceptor, ops))
+    depth = 2 if tier == 'quick' else 3
+    for label, acceptor, base_ops in bases():
+        d = depth if label != 'start' else depth
+        nr, wl = (6, 10) if tier == 'quick' else (60, 40)
+        for names, ops in histories(acceptor, base_ops, d, rng, nr, wl):
+            cases.append(([label] + names, acceptor, ops))
+        if label in ('sta2', 'sta13'):
+            for names, ops in timed_histories(acceptor, base_ops):
+                cases.append(([label] + names, acceptor, ops))
     obs = []
     terms = []
     for names, acceptor, ops in cases:
@@ -101,9 +143,9 @@ def main(tier, seed, prop='C05'):
     cov = dec.coverage
     cov['evaluations'] = len(obs)
     cov['distinct_nontrivial'] = len(set(tuple(n) for n, _a, _o, r in obs if len(r['wire']) + len(r['given']) >= 2))
-    cov['rule'] = ('scenario corpus (both roles, first segment waiting or not) + exhaustive histories to depth %d over '
+    cov['rule'] = ('scenario corpus (both roles, first segment waiting or not) + exhaustive histories to depth %d from each of 14 base states (Sta1..Sta13, both roles) over '
                    '{7 PDU types, complete/partial P-DATA, unknown type, close, ARTIM expiry, tick, idle, legal user '
-                   'primitives} + seeded random walks; non-trivial = at least two wire/indication outputs' % depth)
+                   'primitives} + timed histories around the ARTIM deadline + seeded random walks; non-trivial = at least two wire/indication outputs' % depth)
     cov['distribution'] = dict(final_states=dict((str(k), sum(1 for o in obs if o[3]['final']['st'] == k)) for k in range(1, 14)),
                                outcomes=dict((k, sum(1 for o in obs if o[3]['outcome'] == k)) for k in pd.OUTCOME))
     cov['samples'] = [dict(history=o[0], acceptor=o[1], result=pd.summary(o[3])) for o in obs[3:6]]
